@@ -129,3 +129,21 @@ CHECKS["C19"] = dict(
     design_ref="DESIGN.md 4 C19",
     assumptions=["the kernel timer behaves as the virtual one-shot timer", "signal delivery points = system-call boundaries + between API calls"],
 )
+
+CHECKS["C12"] = dict(
+    title="Interval and interval-linear-form arithmetic encloses every concrete result",
+    quick=T([("c12_interval", 3), ("c12_linform", 1)], cases=900000, secs=40),
+    thorough=T([("c12_interval", 3), ("c12_linform", 1)], cases=20000000, secs=500, flavour="san"),
+    rule="c12_interval: operands built by construction (empty, singleton, zero-straddling, one-signed, touching zero open/closed, half-unbounded, "
+         "universe, near the limits of the bound type) for rational, mpz, int8/int32 and float/double intervals; neg/add/sub/mul/div, join, "
+         "intersect, difference (1- and 2-argument), refine_existential/universal (6 relation symbols), extend, cross-type assign, wrap, predicates; "
+         "oracle = independent exact interval arithmetic over mpq (enclosure of chosen members and of the exact result; equality when the bound "
+         "type is exact). c12_linform: Linear_Form<Interval<float/double>> operators, relative_error, intervalize and linearization of generated "
+         "expression trees over the C_Expr test target; oracle = concrete evaluation under the 4 IEEE rounding modes (hardware, mode restored) "
+         "must lie in the linear form evaluated exactly. Non-trivial: inexact end, zero-straddling mul/div, mixed open/closed ends; >= 2 operators and a non-point store.",
+    technique="property-based testing (constructive operand shapes, independent exact interval arithmetic, concrete-execution oracle for linearization)",
+    level_text="Generated-input exploration against an independent exact interval arithmetic and concrete floating-point executions.",
+    level_note="Hardware float/double only (long double not analysed); oracle arithmetic in mpq; g++ -frounding-math only.",
+    design_ref="DESIGN.md 4 C12",
+    assumptions=["hardware IEEE arithmetic under fesetround is the concrete semantics", "oracle interval arithmetic is correct (self-checked)"],
+)
